@@ -28,3 +28,10 @@ Definition rect_cov (W : mat) (r1 r2 : box) (s : vec) : bool :=
 (* the specification *)
 Definition coverable (W : mat) (r1 r2 : box) (s : vec) : Prop :=
   exists z z', inbox r1 z /\ inbox r2 z' /\ forall w, In w W -> 0 <= dot w (vsub (vsub z' z) s).
+
+(* the same test with every facet constraint tightened by tau: w.(d - s) >= tau.  Used only by the
+   harness to classify instances within solver tolerance of the boundary (tau > 0: robustly
+   coverable; tau < 0: if false, robustly not coverable). *)
+Definition rect_cov_margin (W : mat) (r1 r2 : box) (s : vec) (tau : Q) : bool :=
+  let m := length r1 in
+  fm_sat m (box_rows m 0 (diff_box r1 r2) ++ map (fun w => (w, dot w s + tau)) W).
